@@ -230,6 +230,57 @@ fn workload(dir: &str, name: &str) -> lsm_tree::Result<()> {
             let got = tree.get("k", SeqNo::MAX)?;
             println!("GET k {:?}", got.map(|v| v.len()));
         }
+        // the same history on a standard and on a key-value separated tree: overwrite, weak delete, compaction (C08)
+        "weak-indirection" => {
+            let big = |c: u8| vec![c; 64];
+            let mut answers = vec![];
+            for blob in [false, true] {
+                let d = format!("{dir}/{}", if blob { "blob" } else { "std" });
+                std::fs::create_dir_all(&d)?;
+                let tree = open(&d, blob)?;
+                tree.insert("a", big(b'o'), 0);
+                tree.flush_active_memtable(0)?;
+                tree.insert("a", big(b'n'), 1);
+                tree.remove_weak("a", 2);
+                tree.flush_active_memtable(0)?;
+                tree.major_compact(u64::MAX, 1_000)?;
+                let got = tree.get("a", SeqNo::MAX)?.map(|v| v[0]);
+                println!("{} tree: get(a) = {:?}", if blob { "blob" } else { "standard" }, got.map(|c| c as char));
+                answers.push(got);
+            }
+            if answers[0] != answers[1] {
+                println!("DEMONSTRATED: a key-value separated tree answers differently from a standard tree fed the same history");
+                std::process::exit(7);
+            }
+        }
+        // separation threshold 0 and empty values: a blob file whose blobs are all empty has 0 value bytes (C08 / C09)
+        "empty-values" => {
+            let seqno = SequenceNumberCounter::default();
+            let vis = SequenceNumberCounter::default();
+            let tree = Config::new(dir, seqno, vis)
+                .with_kv_separation(Some(KvSeparationOptions::default().separation_threshold(0)))
+                .open()?;
+            tree.insert("a", "", 0);
+            tree.insert("b", "", 1);
+            tree.flush_active_memtable(0)?;
+            tree.remove("a", 2);
+            tree.flush_active_memtable(0)?;
+            tree.major_compact(u64::MAX, 1_000)?;
+            println!("AFTER_COMPACT tables={} blob_files={}", tree.table_count(), tree.blob_file_count());
+            tree.insert("c", "", 3);
+            tree.flush_active_memtable(0)?;
+            tree.major_compact(u64::MAX, 1_000)?;
+            println!("AFTER_COMPACT2 tables={} blob_files={}", tree.table_count(), tree.blob_file_count());
+            let r = std::panic::catch_unwind(std::panic::AssertUnwindSafe(|| tree.get("b", SeqNo::MAX)));
+            match r {
+                Ok(Ok(Some(v))) if v.is_empty() => println!("GET b ok (empty value)"),
+                other => {
+                    println!("GET b LOST: {:?}", other.map(|x| x.map(|y| y.map(|z| z.len()))));
+                    println!("DEMONSTRATED: a live empty value lost its blob file");
+                    std::process::exit(7);
+                }
+            }
+        }
         // FIFO drop whose version GC fails (old version file replaced by a directory => unlink fails)
         "fifo-gc-fail" => {
             let tree = open(dir, false)?;
